@@ -218,20 +218,24 @@ def corpus_items() -> List[Tuple[str, Callable[[], List[Tuple[str, str, Dict[str
     for lc in limit_cases():
         items.append((f'limit:{lc[0]}:{lc[1]}', limit_thunk(lc)))
 
-    def window_thunk(role: str, w: int, p: int) -> Callable[[], List[Tuple[str, str, Dict[str, Any]]]]:
+    def window_thunk(role: str, w: int, p: int, dropbear: bool = False) -> Callable[[], List[Tuple[str, str, Dict[str, Any]]]]:
         def run() -> List[Tuple[str, str, Dict[str, Any]]]:
-            o = pair.run(C.window_case(role, w, p), timeout=120)
+            o = pair.run(C.window_case(role, w, p, dropbear=dropbear), timeout=120)
             out = []
             for sig, what in C.failures_of(o):
                 if sig.startswith('c10:spins') and p == 0:
                     sig = f'c10:spins:zero-max-packet-size:{role}-send-loop'
-                out.append((sig, what, {'kind': 'channel-open-params', 'role': role, 'window': w, 'max_pktsize': p}))
+                out.append((sig, what, {'kind': 'channel-open-params', 'role': role, 'window': w, 'max_pktsize': p,
+                                        'dropbear': dropbear}))
             return out
         return run
     for role in C.ROLES:
         for w in C.EXTREMES:
             for p in C.EXTREMES:
                 items.append((f'channel-open:{role}:pktsize={p}:window={"0" if w == 0 else "+"}', window_thunk(role, w, p)))
+        # the dropbear work-around subtracts one from the advertised maximum packet size: 0 -> -1, 1 -> 0
+        for p in (0, 1, 2):
+            items.append((f'channel-open:{role}:dropbear:pktsize={p}', window_thunk(role, 2097152, p, dropbear=True)))
 
     def conn_thunk(coro_fn: Callable[[], Any], note: str, rep: Dict[str, Any]) -> Callable[[], List[Tuple[str, str, Dict[str, Any]]]]:
         def run() -> List[Tuple[str, str, Dict[str, Any]]]:
